@@ -74,7 +74,7 @@ func (c13) Components() map[string]string {
 
 func (c13) Gen(r *Rand, idx int, tier string) interface{} {
 	p := &c13Plan{Knobs: GenKnobs(r)}
-	p.Kind = Pick(r, []string{"cancel", "cancel", "closed-calls", "conn-close", "close-queue", "close-queue", "close-send", "close-recv", "close-errqueue"})
+	p.Kind = Pick(r, []string{"cancel", "cancel", "closed-calls", "conn-close", "close-queue", "close-queue", "close-send", "close-recv", "close-errqueue", "cancel-send"})
 	p.FlushFull = r.Pct(40)
 	p.Logical = r.Pct(40)
 	p.QueueSize = Pick(r, []int{1, 2, 3, 5, 100})
@@ -199,6 +199,10 @@ type c13Res struct {
 	delivered  []int32
 	// event sequence numbers around a send issued with a cancelled context: nothing may reach the transport in between
 	cancelledSend [2]int
+	// cancel-send: a multi-packet send whose context is cancelled while it runs
+	sendCall, sendRet, sendPackets int
+	sendErr                        error
+	sendDone                       bool
 }
 
 func (r *c13Res) violate(class, sig, format string, a ...interface{}) {
@@ -315,6 +319,8 @@ func (c13) Run(plan interface{}, schedSeed uint64, replay []simrt.Choice, lenien
 			c13CloseRecv(p, res, conn, ch)
 		case "close-errqueue":
 			c13CloseErrQueue(p, res, conn, ch)
+		case "cancel-send":
+			c13CancelSend(p, res, conn, ch)
 		}
 		_ = bg
 	})
@@ -363,6 +369,33 @@ func (c13) Run(plan interface{}, schedSeed uint64, replay []simrt.Choice, lenien
 			}
 		}
 		v.Probe("send-with-cancelled-context")
+	}
+	if p.Kind == "cancel-send" && res.sendDone && v.Class == "" {
+		after, during := 0, 0
+		for i, sq := range pr.PacketSeq {
+			if pr.Asm.Packets[i].H.Type == peer.BufSetup || pr.Asm.Packets[i].H.Type == peer.BufProtack {
+				continue
+			}
+			if sq > res.sendCall && sq < res.sendRet {
+				during++
+				if res.cancelSeq >= 0 && sq > res.cancelSeq {
+					after++
+				}
+			}
+		}
+		switch {
+		case after > 1:
+			v.Violate("write-after-cancel", "cancel-send: packets written after the context was cancelled", "a %d-packet send went on writing %d packets after its context had been cancelled (one may be in flight)", res.sendPackets, after)
+		case res.cancelSeq >= 0 && res.cancelSeq < res.sendCall && during > 0:
+			v.Violate("write-after-cancel", "cancel: a send with a cancelled context wrote to the transport", "the context was cancelled before SendPackage was called, %d packets were written", during)
+		case res.sendErr == nil && during != res.sendPackets:
+			v.Violate("wrong-result", "cancel-send: success with a different number of packets", "SendPackage returned nil after %d of %d packets", during, res.sendPackets)
+		case res.sendErr != nil && !errors.Is(res.sendErr, context.Canceled):
+			v.Violate("wrong-error", "cancel: send error does not wrap the context error", "SendPackage returned %q", res.sendErr)
+		}
+		if during > 0 && during < res.sendPackets {
+			v.Probe("send-cancelled-between-packets")
+		}
 	}
 	if res.closeDone && res.closeEnd-res.closeStart > 61*time.Second {
 		v.Violate("slow-close", "close took longer than the logout timeout", "%s: Close took %v of simulated time", p.Kind, res.closeEnd-res.closeStart)
@@ -505,6 +538,30 @@ func c13Cancel(p *c13Plan, res *c13Res, conn *tds.Conn, ch *tds.Channel, cancelP
 			res.violate("wrong-error", "cancel: send error does not wrap the context error", "SendPackage with a cancelled context returned %q", err)
 		}
 	}
+}
+
+// c13CancelSend: the context of a send that needs several packets is cancelled while the send runs.
+func c13CancelSend(p *c13Plan, res *c13Res, conn *tds.Conn, ch *tds.Channel) {
+	own, cancelOwn := simrt.WithCancel(context.Background())
+	defer cancelOwn()
+	res.sendPackets = 2 + p.Sends%3
+	cmd := strings.Repeat("y", res.sendPackets*conn.PacketBodySize()-6-100)
+	sender := simrt.Spawn("sender", func() {
+		res.sendCall = simrt.Record("send-call", "", "", 0)
+		res.sendErr = ch.SendPackage(own, &tds.LanguagePackage{Cmd: cmd})
+		res.sendRet = simrt.Record("send-ret", "", "", 0)
+		res.sendDone = true
+	})
+	canceller := simrt.Spawn("canceller", func() {
+		for i := 0; i < p.CancelAfter*3; i++ {
+			simrt.Yield(0)
+		}
+		res.cancelNow = simrt.SimNow()
+		simrt.Record("cancel", "own", "", 0)
+		cancelOwn() // a scheduling point of its own: the context is cancelled when this returns, not before
+		res.cancelSeq = simrt.Record("cancelled", "own", "", 0)
+	})
+	simrt.Join(sender, canceller)
 }
 
 // c13ClosedCalls: every call after Close reports the closed condition.
